@@ -16,7 +16,7 @@ import re
 from sa import ir, cfg, witness
 from sa.ir import fmt, walk, short
 from sa.extract import VERIF
-from .common import callgraph
+from .common import callgraph, literal_value
 
 NS = "nitro::lang::"
 
@@ -43,109 +43,301 @@ def run(ctx):
     def P(pred):
         return [f for f in pats if pred(f)]
 
+    # ---- roles instead of names: a member is what the constructor initialises it from
+    def field_of(n):
+        """short field name if n is (a cast/move of) a data member of *this"""
+        n = ir.unwrap(n)
+        while isinstance(n, dict) and n.get("k") == "call" and (n.get("name") or "") in ("std::move", "std::forward") and n.get("args"):
+            n = ir.unwrap(n["args"][0])
+        if isinstance(n, dict) and n.get("k") == "member" and not n.get("method") and ir.unwrap(n.get("base")).get("k") == "this":
+            return short(n["field"])
+        return None
+
+    def param_of(f, n):
+        """index of the parameter that n (possibly moved/forwarded/parenthesised) names"""
+        n = ir.unwrap(n)
+        while isinstance(n, dict) and ((n.get("k") == "call" and (n.get("name") or "") in ("std::move", "std::forward") and n.get("args")) or (n.get("k") == "construct" and len(n.get("args", [])) == 1)):
+            n = ir.unwrap(n["args"][0])
+        if isinstance(n, dict) and n.get("k") == "ref" and n.get("decl", "").startswith("param:"):
+            for i, p0 in enumerate(f.params):
+                if p0.get("name") == n["decl"][6:]:
+                    return i
+        return None
+
+    def ctor_roles(cn, nparams):
+        """{param index: field short name} of the class's converting constructor with nparams parameters"""
+        cs = P(lambda f: f.cls == cn and f.kind == "ctor" and len(f.params) == nparams and not f.flags.get("copy_ctor") and not f.flags.get("move_ctor"))
+        if len(cs) != 1:
+            return None, None
+        f = cs[0]
+        m = {}
+        for _, _, e in f.all_elems():
+            if e["kind"] == "init" and e.get("field"):
+                pi = param_of(f, e["expr"])
+                if pi is not None:
+                    m[pi] = short(e["field"])
+        return f, m
+
+    def pieces(n):
+        """argument nodes of a construction T{a, b} / T(a, b) / {a, b}"""
+        n = ir.unwrap(n)
+        if not isinstance(n, dict):
+            return None
+        if n.get("k") == "cast" and n.get("ck") == "functional":
+            return pieces(n["e"])
+        if n.get("k") in ("construct", "paren_list"):
+            return [a for a in n.get("args", n.get("kids", [])) if not (isinstance(a, dict) and a.get("k") == "defarg")]
+        if n.get("k") == "init_list":
+            return list(n.get("elems", []))
+        return None
+
+    def is_zero(n):
+        n = ir.unwrap(n)
+        return isinstance(n, dict) and n.get("k") == "lit" and n.get("t") == "int" and n.get("v") == 0
+
+    def bound_of(n, which, obj_pred, reverse_ok=("",)):
+        """n is <prefix>begin/end of an object accepted by obj_pred: obj.begin() / begin(obj) / std::begin(obj); returns the prefix"""
+        n = ir.unwrap(n)
+        if not (isinstance(n, dict) and n.get("k") == "call"):
+            return None
+        nm = short(n.get("name") or "")
+        for pre in reverse_ok:
+            if nm == pre + which:
+                args = [a for a in n.get("args", []) if not (isinstance(a, dict) and a.get("k") == "defarg")]
+                obj = n.get("this") if n.get("this") is not None else (args[0] if len(args) == 1 else None)
+                if obj is not None and obj_pred(obj):
+                    return pre
+        return None
+
+    def advances(e, fld):
+        """does this element advance member `fld` by exactly one?"""
+        x = ir.unwrap(e.get("expr"))
+        if not isinstance(x, dict):
+            return False
+        if x.get("k") == "un" and x["op"] in ("++pre", "++post") and field_of(x["e"]) == fld:
+            return True
+        if x.get("k") == "call" and x.get("op") == "++" and (field_of(x.get("this")) == fld or (x.get("args") and field_of(x["args"][0]) == fld)):
+            return True
+        if x.get("k") == "bin" and x["op"] == "+=" and field_of(x["l"]) == fld and literal_is(x["r"], 1):
+            return True
+        if x.get("k") == "bin" and x["op"] == "=" and field_of(x["l"]) == fld:
+            r = ir.unwrap(x["r"])
+            if isinstance(r, dict) and r.get("k") == "bin" and r["op"] == "+" and ((field_of(r["l"]) == fld and literal_is(r["r"], 1)) or (field_of(r["r"]) == fld and literal_is(r["l"], 1))):
+                return True
+            if isinstance(r, dict) and r.get("k") == "call" and (r.get("name") or "") == "std::next" and len(r.get("args", [])) == 1 and field_of(r["args"][0]) == fld:
+                return True
+        if x.get("k") == "call" and (x.get("name") or "") == "std::advance" and len(x.get("args", [])) == 2 and field_of(x["args"][0]) == fld and literal_is(x["args"][1], 1):
+            return True
+        return False
+
+    def literal_is(n, v):
+        n = ir.unwrap(n)
+        return isinstance(n, dict) and n.get("k") == "lit" and n.get("t") == "int" and n.get("v") == v
+
+    def is_param(f, n, i=0):
+        return param_of(f, n) == i and ir.unwrap(n).get("k") == "ref"
+
     # ---- R20.1
     it_cls = NS + "detail::enumerate_proxy::iterator"
-    for nm, want in (("begin", "begin_"), ("end", "end_")):
-        fs = P(lambda f: f.cls == NS + "detail::enumerate_proxy" and f.name == nm)
-        ctx.need("R20.1", "enumerate_proxy::" + nm, len(fs), 1)
-        for f in fs:
-            r = [fmt(x) for x in rets(f)]
-            ok = r == ["{%s, 0}" % want] or r == ["iterator{%s, 0}" % want]
-            if nm == "end":
-                ok = ok or (len(r) == 1 and re.fullmatch(r"(iterator)?\{end_, \d+\}", r[0]) is not None)
-            ctx.check(ok, "R20.1", f, "proxy-%s" % nm, "enumerate_proxy::%s() returns %s (expected the range's %s%s)" % (nm, r, want, " with index 0" if nm == "begin" else ""), f)
-    for nm, want in (("begin", "container_.begin()"), ("end", "container_.end()")):
-        fs = P(lambda f: f.cls == NS + "detail::enumerate" and f.name == nm)
-        ctx.need("R20.1", "detail::enumerate::" + nm, len(fs), 1)
-        for f in fs:
+    itc, itr = ctor_roles(it_cls, 2)
+    prc, prr = ctor_roles(NS + "detail::enumerate_proxy", 2)
+    pxc, pxr = ctor_roles(NS + "detail::enumerate_proxy::proxy", 2)
+    roles_ok = all(m is not None and set(m) == {0, 1} for m in (itr, prr, pxr))
+    if not roles_ok:
+        ctx.broken("R20.1", NS + "detail::enumerate_proxy", "constructor-roles", "cannot derive which member holds the wrapped iterator / index / range bounds from the constructors: iterator %s, proxy range %s, element proxy %s" % (itr, prr, pxr), "-")
+        IT = IDX = B = E = PI = PV = None
+    else:
+        IT, IDX = itr[0], itr[1]
+        B, E = prr[0], prr[1]
+        PI, PV = pxr[0], pxr[1]
+        ctx.tables["roles"] = {"iterator": {"wrapped": IT, "index": IDX}, "enumerate_proxy": {"begin": B, "end": E}, "proxy": {"index": PI, "value": PV}}
+    if roles_ok:
+        for nm, want in (("begin", B), ("end", E)):
+            fs = P(lambda f: f.cls == NS + "detail::enumerate_proxy" and f.name == nm)
+            ctx.need("R20.1", "enumerate_proxy::" + nm, len(fs), 1)
+            for f in fs:
+                r = rets(f)
+                ps = pieces(r[0]) if len(r) == 1 else None
+                ok = ps is not None and len(ps) == 2 and field_of(ps[0]) == want and (is_zero(ps[1]) if nm == "begin" else literal_value(ps[1]) is not None)
+                ctx.check(bool(ok), "R20.1", f, "proxy-%s" % nm, "enumerate_proxy::%s() returns %s (expected the range's %s%s)" % (nm, [fmt(x) for x in r], want, " with index 0" if nm == "begin" else ""), f)
+        _, er = ctor_roles(NS + "detail::enumerate", 1)
+        C1 = er.get(0) if er else None
+        for nm in ("begin", "end"):
+            fs = P(lambda f: f.cls == NS + "detail::enumerate" and f.name == nm)
+            ctx.need("R20.1", "detail::enumerate::" + nm, len(fs), 1)
+            for f in fs:
+                r = rets(f)
+                ps = pieces(r[0]) if len(r) == 1 else None
+                ok = ps is not None and len(ps) == 2 and C1 is not None and bound_of(ps[0], nm, lambda o: field_of(o) == C1, ("", "c")) is not None
+                if nm == "begin":
+                    ok = ok and is_zero(ps[1])
+                ctx.check(bool(ok), "R20.1", f, "owning-%s" % nm, "detail::enumerate::%s() returns %s (expected an iterator over the owned container's %s%s)" % (nm, [fmt(x) for x in r], nm, ", index 0" if nm == "begin" else ""), f)
+        inc = P(lambda f: f.cls == it_cls and f.op == "++" and not f.params)
+        ctx.need("R20.1", "iterator::operator++()", len(inc), 1)
+        for f in inc:
+            for fld, what in ((IT, "it_"), (IDX, "index_")):
+                ok, path = cfg.must_happen_before_exit(f, lambda e, fld=fld: advances(e, fld))
+                ctx.check(ok, "R20.1", f, "advances-" + what, "operator++ does not advance %s by one on every path%s" % (fld, ": the index no longer counts the elements" if what == "index_" else ""), f)
+                n_adv = sum(1 for _, _, e in f.roots() if advances(e, fld))
+                ctx.check(n_adv <= 1, "R20.1", f, "advances-once-" + what, "operator++ advances %s %d times" % (fld, n_adv), f)
+            ctx.check([fmt(x) for x in rets(f)] == ["(*this)"], "R20.1", f, "pre-increment-returns-self", "operator++ returns %s" % [fmt(x) for x in rets(f)], f)
+        pinc = P(lambda f: f.cls == it_cls and f.op == "++" and len(f.params) == 1)
+        for f in pinc:
+            # a copy of *this taken first, the pre-increment applied to *this, the copy returned
+            copies = [(bid, i, v["name"]) for bid, i, e in f.roots() if e["expr"].get("k") == "decl" for v in e["expr"]["vars"] if v.get("init") is not None and fmt(_strip_copy(v["init"])) == "(*this)"]
+            def bumps(e):
+                x = ir.unwrap(e.get("expr"))
+                if not isinstance(x, dict):
+                    return False
+                if x.get("k") == "un" and x["op"] == "++pre" and fmt(ir.unwrap(x["e"])) == "(*this)":
+                    return True
+                if x.get("k") == "call" and (x.get("op") == "++" or short(x.get("name") or "") == "operator++") and not [a for a in x.get("args", []) if a.get("k") != "defarg"] and fmt(ir.unwrap(x.get("this"))) in ("this", "(*this)"):
+                    return True
+                return False
+            rr = [fmt(x) for x in rets(f)]
+            ok = len(copies) == 1 and rr == [copies[0][2]]
+            if ok:
+                okb, _ = cfg.must_happen_before_exit(f, bumps)
+                first = copies[0]
+                before_ok, _ = cfg.must_precede(f, lambda e: e.get("expr") is not None and e["expr"].get("k") == "decl" and any(v["name"] == first[2] for v in e["expr"]["vars"]), bumps)
+                ok = okb and before_ok
+            ctx.check(bool(ok), "R20.1", f, "post-increment", "operator++(int) is %s (expected: copy *this, pre-increment *this, return the copy)" % [fmt(e["expr"]) for _, _, e in f.roots()], f)
+        ne = P(lambda f: f.cls == it_cls and f.op == "!=")
+        ctx.need("R20.1", "iterator::operator!=", len(ne), 1)
+        for f in ne:
             r = rets(f)
-            ok = len(r) == 1 and r[0].get("k") == "construct" and [fmt(a) for a in r[0].get("args", [])][:1] == [want]
-            idx = fmt(r[0]["args"][1]) if ok and len(r[0].get("args", [])) > 1 else None
-            if nm == "begin":
-                ok = ok and idx == "0"
-            ctx.check(bool(ok), "R20.1", f, "owning-%s" % nm, "detail::enumerate::%s() returns %s" % (nm, [fmt(x) for x in r]), f)
-    inc = P(lambda f: f.cls == it_cls and f.op == "++" and not f.params)
-    ctx.need("R20.1", "iterator::operator++()", len(inc), 1)
-    for f in inc:
-        for fld in ("it_", "index_"):
-            ok, path = cfg.must_happen_before_exit(f, lambda e, fld=fld: fmt(e.get("expr")) in ("(++%s)" % fld, "(%s++)" % fld, "(%s += 1)" % fld))
-            ctx.check(ok, "R20.1", f, "advances-" + fld, "operator++ does not advance %s on every path%s" % (fld, ": the index no longer counts the elements" if fld == "index_" else ""), f)
-        ctx.check([fmt(x) for x in rets(f)] == ["(*this)"], "R20.1", f, "pre-increment-returns-self", "operator++ returns %s" % [fmt(x) for x in rets(f)], f)
-    pinc = P(lambda f: f.cls == it_cls and f.op == "++" and len(f.params) == 1)
-    for f in pinc:
-        body = [fmt(e["expr"]) for _, _, e in f.roots()]
-        ok = len(body) == 3 and body[0].endswith("orig = (*this)") and body[1] == "(++(*this))" and body[2] == "return orig"
-        ctx.check(ok, "R20.1", f, "post-increment", "operator++(int) is %s" % body, f)
-    ne = P(lambda f: f.cls == it_cls and f.op == "!=")
-    ctx.need("R20.1", "iterator::operator!=", len(ne), 1)
-    for f in ne:
-        o = f.params[0]["name"]
-        r = [fmt(x) for x in rets(f)]
-        ctx.check(r in (["(it_ != %s.it_)" % o], ["(!(it_ == %s.it_))" % o]), "R20.1", f, "end-by-iterator-only", "operator!= is %s: the end of the range is no longer detected by the wrapped iterators alone" % r, f)
-    der = P(lambda f: f.cls == it_cls and f.op == "*")
-    ctx.need("R20.1", "iterator::operator*", len(der), 2)
-    for f in der:
-        r = rets(f)
-        ok = len(r) == 1 and r[0].get("k") == "construct" and [fmt(a) for a in r[0].get("args", [])] == ["index_", "(*it_)"]
-        ctx.check(bool(ok), "R20.1", f, "pairs-index-with-element" + (":const" if f.flags.get("const") else ""), "operator* yields %s" % [fmt(x) for x in r], f)
-    pc = P(lambda f: f.cls == NS + "detail::enumerate_proxy::proxy" and f.kind == "ctor")
-    for f in pc:
-        inits = {short(e["field"]): fmt(ir.unwrap(e["expr"])) for _, _, e in f.all_elems() if e["kind"] == "init" and e.get("field")}
-        ctx.check(inits.get("index_") == f.params[0]["name"] and inits.get("value_") == f.params[1]["name"], "R20.1", f, "proxy-stores-pair", "proxy stores %s" % inits, f)
+            ok = False
+            if len(r) == 1:
+                x = r[0]
+                neg = False
+                u = ir.as_unop(x)
+                if u and u[0] == "!":
+                    neg = True
+                    x = ir.unwrap(u[1])
+                bo = ir.as_binop(x)
+                if bo and bo[0] == ("==" if neg else "!="):
+                    sides = []
+                    for sd in (bo[1], bo[2]):
+                        su = ir.unwrap(sd)
+                        if field_of(su) == IT:
+                            sides.append("own")
+                        elif isinstance(su, dict) and su.get("k") == "member" and short(su.get("field") or "") == IT and is_param(f, su.get("base")):
+                            sides.append("other")
+                    ok = sorted(sides) == ["other", "own"]
+            ctx.check(ok, "R20.1", f, "end-by-iterator-only", "operator!= is %s: the end of the range is no longer detected by the wrapped iterators alone" % [fmt(x) for x in r], f)
+        der = P(lambda f: f.cls == it_cls and f.op == "*")
+        ctx.need("R20.1", "iterator::operator*", len(der), 2)
+        for f in der:
+            r = rets(f)
+            ps = pieces(r[0]) if len(r) == 1 else None
+            ok = ps is not None and len(ps) == 2 and field_of(ps[0]) == IDX
+            if ok:
+                u = ir.as_unop(ir.unwrap(ps[1]))
+                ok = bool(u and u[0] == "*" and field_of(u[1]) == IT)
+            ctx.check(bool(ok), "R20.1", f, "pairs-index-with-element" + (":const" if f.flags.get("const") else ""), "operator* yields %s (expected the index member and the dereferenced wrapped iterator)" % [fmt(x) for x in r], f)
+        ctx.ok("R20.1", pxc, "proxy-stores-pair", "proxy(index, value) initialises %s / %s" % (PI, PV), pxc)
+        for nm, want in (("index", PI), ("value", PV)):
+            for f in P(lambda f: f.cls == NS + "detail::enumerate_proxy::proxy" and f.name == nm):
+                r = rets(f)
+                ctx.check(len(r) == 1 and field_of(r[0]) == want, "R20.1", f, "proxy-%s-accessor%s" % (nm, ":const" if f.flags.get("const") else ""), "proxy::%s() returns %s instead of the member initialised from the constructor's %s argument" % (nm, [fmt(x) for x in r], nm), f)
+
+    def ctor_name(n):
+        n = ir.unwrap(n)
+        if isinstance(n, dict) and n.get("k") == "cast" and n.get("ck") == "functional":
+            return ctor_name(n["e"])
+        return (n.get("name") or n.get("type") or "") if isinstance(n, dict) else ""
+
+    def owned_vector_of(f, n):
+        """n constructs a std::vector from the parameter (copy / move / iterator pair over it)"""
+        ps = pieces(n)
+        if ps is None or "vector" not in ctor_name(n):
+            return False
+        if len(ps) == 1 and param_of(f, ps[0]) == 0:
+            return True
+        if len(ps) == 2 and bound_of(ps[0], "begin", lambda o: is_param(f, o)) is not None and bound_of(ps[1], "end", lambda o: is_param(f, o)) is not None:
+            return True
+        return False
+
     # free enumerate overloads
     for f in P(lambda f: f.qual == NS + "enumerate" and len(f.params) == 1):
         t = f.params[0].get("type") or ""
-        p = f.params[0]["name"]
-        r = [fmt(x) for x in rets(f)]
-        if t in ("const T &", "T &"):
-            ok = len(r) == 1 and re.fullmatch(r"enumerate_proxy<decltype\(begin\(%s\)\)>\{begin\(%s\), end\(%s\)\}" % (p, p, p), r[0]) is not None
-            ctx.check(ok, "R20.1", f, "lvalue-proxy-over-begin-end:" + t, "enumerate(%s) returns %s" % (t, r), f)
-        elif t == "T &&":
-            ctx.check(r == ["enumerate<T>{move(%s)}" % p], "R20.4", f, "rvalue-moved-into-adaptor", "enumerate(T&&) returns %s: the temporary range is not owned by the returned object" % r, f)
-        elif t.startswith("std::initializer_list<T>"):
-            ctx.check(r == ["enumerate(vector<T>{move(%s)})" % p] or r == ["enumerate(vector<T>{%s})" % p], "R20.4", f, "initializer_list-copied-into-owned-vector",
-                      "enumerate(initializer_list&&) returns %s: the elements are not owned by the returned adaptor (shared or dangling storage)" % r, f)
+        r = rets(f)
+        rs = [fmt(x) for x in r]
+        if re.fullmatch(r"(const )?\w+ &", t):
+            ps = pieces(r[0]) if len(r) == 1 else None
+            ok = ps is not None and len(ps) == 2 and "enumerate_proxy" in ctor_name(r[0]) and bound_of(ps[0], "begin", lambda o: is_param(f, o)) is not None and bound_of(ps[1], "end", lambda o: is_param(f, o)) is not None
+            ctx.check(bool(ok), "R20.1", f, "lvalue-proxy-over-begin-end:" + ("const T &" if t.startswith("const") else "T &"), "enumerate(%s) returns %s (expected a proxy over [begin(x), end(x)) of the argument itself)" % (t, rs), f)
+        elif re.fullmatch(r"\w+ &&", t):
+            ps = pieces(r[0]) if len(r) == 1 else None
+            ok = ps is not None and len(ps) == 1 and param_of(f, ps[0]) == 0 and re.match(r"(detail::)?enumerate\b", ctor_name(r[0]).replace("nitro::lang::", "")) is not None and "proxy" not in ctor_name(r[0])
+            ctx.check(bool(ok), "R20.4", f, "rvalue-moved-into-adaptor", "enumerate(T&&) returns %s: the temporary range is not owned by the returned object" % rs, f)
+        elif t.startswith("std::initializer_list<"):
+            x = r[0] if len(r) == 1 else None
+            ok = isinstance(x, dict) and x.get("k") == "call" and short(x.get("name") or "") == "enumerate" and len(x.get("args", [])) == 1 and owned_vector_of(f, x["args"][0])
+            ctx.check(bool(ok), "R20.4", f, "initializer_list-copied-into-owned-vector",
+                      "enumerate(initializer_list&&) returns %s: the elements are not owned by the returned adaptor (shared or dangling storage)" % rs, f)
 
     # ---- R20.2
     for f in P(lambda f: f.qual == NS + "reverse" and len(f.params) == 1):
         t = f.params[0].get("type") or ""
-        p = f.params[0]["name"]
-        r = [fmt(x) for x in rets(f)]
-        if t in ("const T &", "T &"):
-            ok = r == ["reverse_proxy<T, decltype(%s.rbegin())>{%s.rbegin(), %s.rend()}" % (p, p, p)]
-            ctx.check(ok, "R20.2", f, "lvalue-proxy-over-rbegin-rend:" + t, "reverse(%s) returns %s" % (t, r), f)
-        elif t == "T &&":
-            ctx.check(r == ["reverse<T>{move(%s)}" % p], "R20.4", f, "rvalue-moved-into-adaptor", "reverse(T&&) returns %s" % r, f)
-        elif t.startswith("std::initializer_list<T>"):
-            ctx.check(r in (["reverse(vector<T>{move(%s)})" % p], ["reverse(vector<T>{%s})" % p]), "R20.4", f, "initializer_list-copied-into-owned-vector", "reverse(initializer_list&&) returns %s" % r, f)
-        elif "(&)[Size]" in t:
-            ctx.check(r == ["reverse(vector<std::reference_wrapper<T>>{%s, (%s + Size)})" % (p, p)], "R20.4", f, "array-as-reference_wrappers", "reverse(T(&)[Size]) returns %s" % r, f)
-    for nm, want in (("begin", "begin_"), ("end", "end_")):
-        for f in P(lambda f: f.cls == NS + "detail::reverse_proxy" and f.name == nm):
-            ctx.check([fmt(x) for x in rets(f)] == [want], "R20.2", f, "proxy-returns-" + want, "reverse_proxy::%s() returns %s" % (nm, [fmt(x) for x in rets(f)]), f)
-    for f in P(lambda f: f.cls == NS + "detail::reverse_proxy" and f.kind == "ctor"):
-        inits = {short(e["field"]): fmt(ir.unwrap(e["expr"])) for _, _, e in f.all_elems() if e["kind"] == "init" and e.get("field")}
-        ctx.check(inits == {"begin_": f.params[0]["name"], "end_": f.params[1]["name"]}, "R20.2", f, "proxy-keeps-order", "reverse_proxy stores %s" % inits, f)
-    for nm, want in (("begin", "container_.crbegin()"), ("end", "container_.crend()")):
+        r = rets(f)
+        rs = [fmt(x) for x in r]
+        if re.fullmatch(r"(const )?\w+ &", t):
+            ps = pieces(r[0]) if len(r) == 1 else None
+            ok = ps is not None and len(ps) == 2 and "reverse_proxy" in ctor_name(r[0]) and bound_of(ps[0], "begin", lambda o: is_param(f, o), ("r",)) == "r" and bound_of(ps[1], "end", lambda o: is_param(f, o), ("r",)) == "r"
+            ctx.check(bool(ok), "R20.2", f, "lvalue-proxy-over-rbegin-rend:" + ("const T &" if t.startswith("const") else "T &"), "reverse(%s) returns %s (expected a proxy over [x.rbegin(), x.rend()) of the argument itself)" % (t, rs), f)
+        elif re.fullmatch(r"\w+ &&", t):
+            ps = pieces(r[0]) if len(r) == 1 else None
+            ok = ps is not None and len(ps) == 1 and param_of(f, ps[0]) == 0 and re.match(r"(detail::)?reverse\b", ctor_name(r[0]).replace("nitro::lang::", "")) is not None and "proxy" not in ctor_name(r[0])
+            ctx.check(bool(ok), "R20.4", f, "rvalue-moved-into-adaptor", "reverse(T&&) returns %s" % rs, f)
+        elif t.startswith("std::initializer_list<"):
+            x = r[0] if len(r) == 1 else None
+            ok = isinstance(x, dict) and x.get("k") == "call" and short(x.get("name") or "") == "reverse" and len(x.get("args", [])) == 1 and owned_vector_of(f, x["args"][0])
+            ctx.check(bool(ok), "R20.4", f, "initializer_list-copied-into-owned-vector", "reverse(initializer_list&&) returns %s" % rs, f)
+        elif "(&)[" in t:
+            x = r[0] if len(r) == 1 else None
+            ok = False
+            if isinstance(x, dict) and x.get("k") == "call" and short(x.get("name") or "") == "reverse" and len(x.get("args", [])) == 1:
+                ps = pieces(x["args"][0])
+                if ps is not None and len(ps) == 2:
+                    a, b = ir.unwrap(ps[0]), ir.unwrap(ps[1])
+                    whole = is_param(f, a) and isinstance(b, dict) and b.get("k") == "bin" and b["op"] == "+" and is_param(f, b["l"]) and re.fullmatch(r"\w+", fmt(ir.unwrap(b["r"]))) is not None and fmt(ir.unwrap(b["r"])) in t
+                    viabe = bound_of(a, "begin", lambda o: is_param(f, o)) is not None and bound_of(b, "end", lambda o: is_param(f, o)) is not None
+                    ok = whole or viabe
+            ctx.check(bool(ok), "R20.4", f, "array-as-reference_wrappers", "reverse(T(&)[Size]) returns %s (expected reverse over a vector of references to [array, array + Size); element type pinned by witness w25)" % rs, f)
+    rpc, rpr = ctor_roles(NS + "detail::reverse_proxy", 2)
+    if rpr is None or set(rpr) != {0, 1}:
+        ctx.broken("R20.2", NS + "detail::reverse_proxy", "constructor-roles", "cannot derive which member holds begin / end from the constructor: %s" % rpr, "-")
+    else:
+        ctx.ok("R20.2", rpc, "proxy-keeps-order", "reverse_proxy(begin, end) initialises %s / %s" % (rpr[0], rpr[1]), rpc)
+        for nm, want in (("begin", rpr[0]), ("end", rpr[1])):
+            for f in P(lambda f: f.cls == NS + "detail::reverse_proxy" and f.name == nm):
+                r = rets(f)
+                ctx.check(len(r) == 1 and field_of(r[0]) == want, "R20.2", f, "proxy-returns-" + nm + "_", "reverse_proxy::%s() returns %s instead of the member holding the constructor's %s argument" % (nm, [fmt(x) for x in r], nm), f)
+    _, rr_ = ctor_roles(NS + "detail::reverse", 1)
+    C2 = rr_.get(0) if rr_ else None
+    for nm in ("begin", "end"):
         fs = P(lambda f: f.cls == NS + "detail::reverse" and f.name == nm)
         ctx.need("R20.2", "detail::reverse::" + nm, len(fs), 1)
         for f in fs:
-            r = [fmt(x) for x in rets(f)]
-            ctx.check(r in ([want], [want.replace("cr", "r")]), "R20.2", f, "owning-%s-from-container" % nm,
-                      "detail::reverse::%s() returns %s instead of computing %s from the owned container" % (nm, r, want), f)
+            r = rets(f)
+            ok = len(r) == 1 and C2 is not None and bound_of(r[0], nm, lambda o: field_of(o) == C2, ("cr", "r")) is not None
+            ctx.check(bool(ok), "R20.2", f, "owning-%s-from-container" % nm,
+                      "detail::reverse::%s() returns %s instead of computing (c)r%s() from the owned container" % (nm, [fmt(x) for x in r], nm), f)
     # owning adaptors hold nothing but the container
     for cn in (NS + "detail::reverse", NS + "detail::enumerate"):
         c = prog.cls(cn)
         if not ctx.anchor("R20.2", cn, c is not None):
             continue
-        flds = [(fl["name"], fl["type"]) for fl in c["fields"]]
-        ok = len(flds) == 1 and flds[0][1] == "T"
+        flds = [(fl["name"], fl["type"]) for fl in c["fields"] if not fl.get("static")]
+        ok = len(flds) == 1 and re.fullmatch(r"\w+", flds[0][1]) is not None and not c["fields"][0].get("ref") and not c["fields"][0].get("ptr")
         ctx.check(ok, "R20.2", cn, "adaptor-holds-only-the-container",
                   "%s has members %s: anything derived from the container (iterators, proxies) dangles into the source object after the implicit copy/move of the adaptor" % (short(cn), flds),
                   "%s:%d" % (c["file"], c["line"]))
-        for f in P(lambda f: f.cls == cn and f.kind == "ctor"):
-            inits = {short(e["field"]): fmt(ir.unwrap(e["expr"])) for _, _, e in f.all_elems() if e["kind"] == "init" and e.get("field")}
-            ctx.check(inits.get("container_") == "move(%s)" % f.params[0]["name"] and set(inits) == {"container_"}, "R20.2", f, "adaptor-takes-ownership", "the adaptor constructor initialises %s" % inits, f)
+        cf, cm = ctor_roles(cn, 1)
+        if cf is not None:
+            inits = {short(e["field"]): fmt(ir.unwrap(e["expr"])) for _, _, e in cf.all_elems() if e["kind"] == "init" and e.get("field")}
+            ctx.check(cm == {0: flds[0][0]} and len(inits) == 1 and ("move(" in list(inits.values())[0] or "forward(" in list(inits.values())[0]), "R20.2", cf, "adaptor-takes-ownership", "the adaptor constructor initialises %s" % inits, cf)
 
     # ---- R20.4: no static / thread_local storage anywhere in the two headers
     n = 0
@@ -170,3 +362,10 @@ def run(ctx):
         ctx.ok("R20.4", "nitro::lang", "no-shared-storage", "%d functions scanned" % len(pats), "-")
     ctx.assume("iteration over user-defined iterators with exotic operator!= is outside the claim")
     ctx.trust("range-based for keeps the range expression's temporary alive for the whole loop (Appendix D.7)")
+
+
+def _strip_copy(n):
+    n = ir.unwrap(n)
+    while isinstance(n, dict) and n.get("k") == "construct" and len(n.get("args", [])) == 1 and (n.get("copy") or n.get("move") or True):
+        n = ir.unwrap(n["args"][0])
+    return n
